@@ -240,6 +240,15 @@ class RawVoltageBackend(object):
                       blocks_per_file=blocks_per_file,
                       num_subblocks=num_subblocks)
         
+        # The input samples are decoded with the source's polarisation and antenna
+        # counts; a source that does not match the recording would silently
+        # reinterpret its bytes
+        if (backend.num_pols != raw_params['num_pols']
+                or backend.num_antennas != raw_params['num_antennas']):
+            raise ValueError(f"The antenna source has {backend.num_antennas} antenna(s) and "
+                             f"{backend.num_pols} polarisation(s), but the input recording has "
+                             f"{raw_params['num_antennas']} and {raw_params['num_pols']}.")
+        
         backend.input_file_stem = input_file_stem   
         backend.input_num_blocks = raw_utils.get_total_blocks(input_file_stem)
         backend.input_header_dict = raw_utils.read_header(f'{input_file_stem}.0000.raw')
